@@ -102,19 +102,29 @@ def load_known(path=None):
 def run_property(pid, rule_module, root="/repo", tier="quick", seed=0, evidence_dir=None, known_path=None, deepen=None):
     """returns exit code"""
     t0 = time.time()
+    errors = []
     try:
         ctx = Ctx(root, tier)
-        rule_module.run(ctx)
-        from . import helpers
-        helpers.run(ctx, pid)
-        from . import mustpass
-        mustpass.run(ctx, pid)
     except AnalysisError as e:
         print(f"ANALYSIS-ERROR property={pid} {e}")
         return 2
     except Exception:
         print(f"ANALYSIS-ERROR property={pid} internal error")
         traceback.print_exc(file=sys.stdout)
+        return 2
+    from . import helpers, mustpass
+    # the three rule families are independent: an anchor that one of them cannot find does not silence what the others decide
+    for family in (lambda: rule_module.run(ctx), lambda: helpers.run(ctx, pid), lambda: mustpass.run(ctx, pid)):
+        try:
+            family()
+        except AnalysisError as e:
+            errors.append(str(e))
+        except Exception:
+            errors.append("internal error\n" + traceback.format_exc())
+    for e in errors:
+        print(f"ANALYSIS-ERROR property={pid} {e}")
+    if errors and not any(r["status"] == "violation" for r in ctx.results):
+        # nothing definite to report: the analysis itself is broken (vanished anchor, unsupported construct) - never a silent pass
         return 2
     known = [k for k in load_known(known_path) if k.get("property") == pid and k.get("status") == "open"]
     n_viol = 0
@@ -172,4 +182,4 @@ def run_property(pid, rule_module, root="/repo", tier="quick", seed=0, evidence_
     ed.mkdir(parents=True, exist_ok=True)
     (ed / f"{pid}.json").write_text(json.dumps(ev, indent=1, default=str))
     print(f"SUMMARY property={pid} obligations={len(ctx.results)} ok={n_ok} known={n_known} violations={n_viol} wall_s={ev['wall_s']}")
-    return 1 if n_viol else 0
+    return 1 if n_viol else (2 if errors else 0)
